@@ -5,6 +5,21 @@ __CPROVER_assigns(__CPROVER_object_whole(self), IOS_IN_ASSIGNS(in), __tmcg_throw
 /* C12: whatever the stream contains, construction ends normally or with a standard exception
  * (malformed number, refused zero modulus) -- no GMP division by zero, no memory error */
 __CPROVER_ensures(__tmcg_thrown == 0 || __tmcg_thrown == TMCG_EXC_runtime_error || __tmcg_thrown == TMCG_EXC_invalid_argument)
+/* the tables exist afterwards */
+__CPROVER_ensures(__tmcg_thrown == 0 ==> __CPROVER_is_fresh(self->fpowm_table_g, TMCG_MAX_FPOWM_T * sizeof(mpz_t))
+                                      && __CPROVER_is_fresh(self->fpowm_table_h, TMCG_MAX_FPOWM_T * sizeof(mpz_t)))
 __CPROVER_ensures(__tmcg_thrown == 0 ==> self->F_size == fieldsize && self->G_size == subgroupsize && self->canonical_g == canonical_g_usage
                   && in->pos == __CPROVER_old(in->pos) + 4 && V(self->p) == TOK(in, 0) && V(self->q) == TOK(in, 1) && V(self->g) == TOK(in, 2) && V(self->k) == TOK(in, 3))
+//@ end
+
+//@ function BarnettSmartVTMF_dlog_GroupQR__ctor_stream
+//@ contract
+__CPROVER_requires(__CPROVER_is_fresh(self, sizeof(*self)) && IOS_IN_OK(in) && __tmcg_thrown == 0)
+/* configuration parameters (not wire data): a sensible exponent size */
+__CPROVER_requires(exponentsize >= 2)
+__CPROVER_assigns(__CPROVER_object_whole(self), IOS_IN_ASSIGNS(in), __tmcg_thrown)
+/* C12: whatever the stream contains, construction ends normally or with a standard exception */
+__CPROVER_ensures(__tmcg_thrown == 0 || __tmcg_thrown == TMCG_EXC_runtime_error || __tmcg_thrown == TMCG_EXC_invalid_argument)
+/* a field prime shorter than the exponent size leaves the error indicator g = 0 */
+__CPROVER_ensures(__tmcg_thrown == 0 && UF(bits)(V(self->p)) < exponentsize ==> V(self->g) == 0)
 //@ end
